@@ -19,14 +19,15 @@ TECH = "TLA+ spec tla/ClientLib.tla checked by TLC + conformance (schedules from
 FAMILIES = {
     "C17": dict(cfgs=[("MC_ClientLib_C17.cfg", 8, 9)], devs=["NoDupPublish", "PubrelDropped", "NilOnTerminate"],
                 devsigs=["C17/retransmit-no-dup", "C17/pubrel-unanswered", "C17/publish-result-vs-ack"],
-                devmax=7, quick_sample=600, sim=(400, 30)),
-    "C27": dict(cfgs=[("MC_ClientLib_C27.cfg", 7, 8)], devs=[], quick_sample=300, sim=(400, 30), repeat=2, vectors=True),
+                devmax=7, quick_sample=900, sim=(400, 30)),
+    "C27": dict(cfgs=[("MC_ClientLib_C27.cfg", 7, 8), ("MC_ClientLib_C27u.cfg", 9, 10, "all")], devs=[], quick_sample=250, sim=(400, 30),
+                repeat=1, vectors=True),
     "C28": dict(cfgs=[("MC_ClientLib_C28.cfg", 5, 6), ("MC_ClientLib_C28ka.cfg", 5, 6)], devs=["KaSync", "NilOnTerminate"],
                 devsigs=["C28/goroutines-after-end"],
-                devcfg="MC_ClientLib_C28ka.cfg", quick_sample=600, sim=(400, 25)),
+                devcfg="MC_ClientLib_C28ka.cfg", quick_sample=900, sim=(400, 25)),
     "C33": dict(cfgs=[("MC_ClientLib_C33.cfg", 7, 9), ("MC_ClientLib_C33b.cfg", 7, 8), ("MC_ClientLib_C33c.cfg", 7, 8)], devs=["KaSync"],
                 devsigs=["C33/keepalive-ping-while-not-active"],
-                devcfg="MC_ClientLib_C33.cfg", quick_sample=600, sim=(400, 30)),
+                devcfg="MC_ClientLib_C33.cfg", quick_sample=900, sim=(400, 30)),
     "C06": dict(cfgs=[("MC_ClientLib_C06.cfg", 8, 9)], devs=["SharedStore"], devsigs=["C06/pubrec-missing"], devmax=6, quick_sample=500, sim=(200, 25)),
 }
 # client halves served from the runs of these families
@@ -228,9 +229,10 @@ def design_and_generate(fam, tier, notes):
     F = FAMILIES[fam]
     seed = vlib.seed()
     jobs = []
-    for cfgname, q, t in F["cfgs"]:
+    for cf in F["cfgs"]:
+        cfgname, q, t = cf[:3]
         text = read_cfg(cfgname)
-        jobs.append(("mc", cfgname, patch_cfg(text, maxev=q if tier == "quick" else t), dict(workers=6, timeout=1100, javaopts="-Xmx6g")))
+        jobs.append(("mc:all" if len(cf) > 3 and cf[3] == "all" else "mc", cfgname, patch_cfg(text, maxev=q if tier == "quick" else t), dict(workers=6, timeout=1100, javaopts="-Xmx6g")))
         if tier == "thorough" and F.get("sim"):
             num, depth = F["sim"]
             jobs.append(("sim", cfgname, patch_cfg(text, maxev=depth),
@@ -251,7 +253,7 @@ def design_and_generate(fam, tier, notes):
     scheds, devhits = [], {}
     for (kind, cfgname, text, kw), res in zip(jobs, results):
         conf = cfg_consts(text)
-        if kind == "mc":
+        if kind in ("mc", "mc:all"):
             if not vlib.tlc_ok(res):
                 bad = vlib.tlc_printed(res, "BAD:")
                 raise vlib.Inconclusive("TLC does not prove the properties on the specification %s (spec-level counterexample, "
@@ -260,7 +262,10 @@ def design_and_generate(fam, tier, notes):
             trans += res["generated"]
             hs = parse_hists(res)
             notes.append("%s: %d distinct states, %d transitions, depth %d, %d schedules" % (cfgname, res["distinct"], res["generated"], res["depth"], len(hs)))
-            scheds += [(conf, h, "transition") for h in hs]
+            if kind == "mc:all":   # small focused configuration: every (maximal) schedule is executed in both tiers
+                scheds += [(conf, h, "transition-all") for h in maximal(hs)]
+            else:
+                scheds += [(conf, h, "transition") for h in hs]
         elif kind == "sim":
             hs = maximal(parse_hists(res))
             if not hs:
@@ -304,28 +309,28 @@ def extra_schedules(fam):
 
 
 def select(scheds, tier, fam):
+    """Which schedules are executed: deviation counterexamples, walks, directed and "all" suites
+    completely; of the one-per-transition suites a seeded sample in quick (2/3 maximal schedules,
+    which cover every transition on their paths, 1/3 proper prefixes = silence from that point on),
+    up to 14000 maximal ones in thorough."""
     rnd = random.Random(vlib.seed())
     trans = [x for x in scheds if x[2] == "transition"]
     others = [x for x in scheds if x[2] != "transition"]
-    if tier == "quick":
-        n = FAMILIES[fam]["quick_sample"]
-        if len(trans) > n:
-            # the maximal ones cover every transition of their paths; fill up with a seeded sample
-            mx = maximal([h for _, h, _ in trans])
-            keys = {json.dumps(h, sort_keys=True) for h in mx}
-            cfgof = {json.dumps(h, sort_keys=True): c for c, h, _ in trans}
-            mxs = [(cfgof[json.dumps(h, sort_keys=True)], h, "transition") for h in mx]
-            rnd.shuffle(mxs)
-            rest = [x for x in trans if json.dumps(x[1], sort_keys=True) not in keys]
-            rnd.shuffle(rest)
-            trans = mxs[:n * 2 // 3] + rest[:n // 3]
-    else:
-        cap = 14000
-        if len(trans) > cap:
-            mx = maximal([h for _, h, _ in trans])
-            cfgof = {json.dumps(h, sort_keys=True): c for c, h, _ in trans}
-            mxs = [(cfgof[json.dumps(h, sort_keys=True)], h, "transition") for h in mx]
-            rnd.shuffle(mxs)
+    cap = FAMILIES[fam]["quick_sample"] if tier == "quick" else 14000
+    if len(trans) > cap:
+        bycfg = {}
+        for c, h, k in trans:
+            bycfg.setdefault(json.dumps(c, sort_keys=True), []).append((c, h, k))
+        mxs, rest = [], []
+        for items in bycfg.values():
+            mx = {json.dumps(h, sort_keys=True) for h in maximal([h for _, h, _ in items])}
+            for it in items:
+                (mxs if json.dumps(it[1], sort_keys=True) in mx else rest).append(it)
+        rnd.shuffle(mxs)
+        rnd.shuffle(rest)
+        if tier == "quick":
+            trans = mxs[:cap * 2 // 3] + rest[:cap // 3]
+        else:
             trans = mxs[:cap]
     return trans + others
 
@@ -342,7 +347,7 @@ def run_family(fam, tier, want_props):
     meta = {}
     rep = FAMILIES[fam].get("repeat", 1) if tier == "quick" else FAMILIES[fam].get("repeat", 1) * 3
     for n, (conf, h, kind) in enumerate(chosen):
-        for r in range(rep if kind == "transition" else 1):
+        for r in range(rep if kind.startswith("transition") else 1):
             sid = "%s-%05d-%d" % (fam, n, r)
             scs.append(scenario(sid, conf, h))
             meta[sid] = kind
@@ -405,9 +410,11 @@ def run_family(fam, tier, want_props):
 def coverage_of(R, prop):
     return dict(states=R["states"], transitions=R["transitions"], traces_validated_against_impl=R["traces"],
                 samples=R["samples"][:2] or [dict(note="no trace")], evaluations=R["judged"],
-                distinct_nontrivial=len(R["cov"]),
-                rule="per trace line: ClientLib step of the logged input event vs. observed datagrams / API returns / callbacks / "
-                     "termination judged by the named clauses of Trace_ClientLib.Judge (signatures %s/...)" % prop,
+                distinct_nontrivial=len(R["cov"]) + (R["vec_info"]["replayed_pairs"] if R["vec_info"] else 0),
+                rule="evaluations = trace lines of the real client judged by TLC (ClientLib step of the logged input event vs. observed "
+                     "datagrams / API returns / callbacks / termination, named clauses of Trace_ClientLib.JudgeFull, signatures %s/...); "
+                     "distinct_nontrivial = distinct abstract transitions exercised on the real code (event kind x packet/API type x client "
+                     "state x kind of the exchange addressed, counted by the trace spec) plus, for C27, the distinct (filter, name) vectors replayed" % prop,
                 exhaustive=False,
                 schedules_generated=R["n_generated"], schedules_executed=R["n_sched"], trace_lines=R["lines"],
                 soft_internal_diffs=R["soft"], model_gaps=len(R["gaps"]), tlc=R["notes"],
@@ -530,6 +537,8 @@ def run_client_half(prop, tier):
             return viols, dict(evaluations=races[1], distinct_nontrivial=races[1], traces_validated_against_impl=0, states=0, transitions=0,
                                samples=[s["events"] for s in race_scenarios()[:1]], exhaustive=False,
                                rule="gated timer/reply races of sleepTransaction and RetryTransaction users; only process death is judged")
+    if tier == "quick":
+        fams = fams[:1]     # one family run fits the quick budget; thorough uses all
     for fam in fams:
         R = run_family(fam, tier, [prop])
         if R["gaps"] and prop != "C25":
